@@ -24,6 +24,7 @@ var (
 func checkC09(c *chk.Ctx) {
 	h := newH(c)
 	c.Decided = []string{
+		"R09m a read-only segment that is taken out of the group's index of segments is also taken out of its cache of open segments (a stale cache entry would be served for offsets that later belong to another segment)",
 		"R09l TruncateLog decides what to cut from the appended end of the log: none of its branch conditions reads the synced offset (entries appended but not yet synced have to go too)",
 		"R09a an entry is appended to a segment only after the contiguity check of its offset (shared with C08)",
 		"R09b every WAL method that appends to / truncates a segment updates the last-offset bookkeeping on every path that can report success",
@@ -51,6 +52,7 @@ func checkC09(c *chk.Ctx) {
 	ruleSegmentListSorted(h, "R09j")
 	ruleSyncCompletionsCovered(h, "R09k")
 	ruleR09l(h)
+	ruleR09m(h)
 }
 
 // mayBeNil: the (resolved) error operand of a return is not provably non-nil.
@@ -551,7 +553,7 @@ func ruleR09h(h *H) {
 // unmapped, and reads through it fail although the offset is in the log.
 func ruleR09i(h *H) {
 	const rule = "R09i"
-	h.Rule(rule, "K1", "in the ReadOnlySegmentsGroup implementation every returned RefCount is the result of Acquire(), and no call that can close cached RefCounts can execute before that Acquire", 2)
+	h.Rule(rule, "K1", "in the ReadOnlySegmentsGroup implementation every returned RefCount is the result of Acquire() (or a fresh reference, or the cache's own reference handed over together with the removal of its cache entry), and no call that can close cached RefCounts can execute before that Acquire", 2)
 	isRefCount := func(t types.Type) bool {
 		n, ok := types.Unalias(t).(*types.Named)
 		return ok && n.Obj().Name() == "RefCount" && n.Obj().Pkg() != nil && strings.HasSuffix(n.Obj().Pkg().Path(), "common/object")
@@ -608,6 +610,31 @@ func ruleR09i(h *H) {
 						}
 						if !shared {
 							h.OK(rule, name, h.pos(in), "a fresh reference that is not kept by the group")
+							return
+						}
+					}
+				}
+				// ownership transfer: the cache's own reference leaves the cache together with
+				// its entry (looked up in a tree/map of the group and removed from that same
+				// container, with the same key, before the return)
+				if ex, isEx := v.(*ssa.Extract); isEx && ex.Index == 0 {
+					if get, isGet := ex.Tuple.(*ssa.Call); isGet && len(get.Call.Args) >= 2 {
+						removed := false
+						ir.Instrs(fn, func(x ssa.Instruction) {
+							c, isC := x.(*ssa.Call)
+							if !isC || len(c.Call.Args) < 2 || !ir.Dominates(x, in) {
+								return
+							}
+							f := c.Call.StaticCallee()
+							if f == nil || !strings.HasPrefix(f.Name(), "Remove") {
+								return
+							}
+							if ir.SameExpr(c.Call.Args[0], get.Call.Args[0]) && ir.SameExpr(c.Call.Args[1], get.Call.Args[1]) {
+								removed = true
+							}
+						})
+						if removed {
+							h.OK(rule, name, h.pos(in), "the cache's reference is handed over: its entry is removed from the cache before the return")
 							return
 						}
 					}
@@ -672,5 +699,108 @@ func ruleR09l(h *H) {
 	}
 	if n == 0 {
 		h.Anchor(rule, "branches of the Wal.TruncateLog implementation")
+	}
+}
+
+// ruleR09m: the group keeps an index of the segments on disk and a cache of opened ones.
+// Reads consult the cache first. A segment that leaves the index (trimmed, polled for a
+// truncation) must leave the cache on the same path, or a closed / deleted segment keeps
+// being served for offsets that are later written again into another segment.
+func ruleR09m(h *H) {
+	const rule = "R09m"
+	h.Rule(rule, "K1", "in the ReadOnlySegmentsGroup implementation every removal of a key from the index of segments is followed on every path by the removal of the same key from the cache of open segments, or by the not-found outcome of looking it up there", 2)
+	n := 0
+	for _, t := range h.P.Impls("server/wal", "ReadOnlySegmentsGroup") {
+		st, ok := t.Underlying().(*types.Struct)
+		if !ok {
+			continue
+		}
+		index, cache := "", ""
+		for i := 0; i < st.NumFields(); i++ {
+			pt, isP := st.Field(i).Type().(*types.Pointer)
+			if !isP {
+				continue
+			}
+			nt, isN := types.Unalias(pt.Elem()).(*types.Named)
+			if !isN || nt.TypeArgs() == nil || nt.TypeArgs().Len() != 2 {
+				continue
+			}
+			switch v := nt.TypeArgs().At(1); {
+			case v.String() == "bool":
+				index = st.Field(i).Name()
+			case strings.Contains(v.String(), "RefCount"):
+				cache = st.Field(i).Name()
+			}
+		}
+		if index == "" || cache == "" {
+			h.Anchor(rule, "index and cache containers of "+t.Obj().Name())
+			continue
+		}
+		tn := t.Obj().Name()
+		on := func(v ssa.Value, field string) bool { return ir.LoadsField(v, "server/wal", tn, field) }
+		callNamed := func(in ssa.Instruction, name string) *ssa.Call {
+			c, ok := in.(*ssa.Call)
+			if !ok || len(c.Call.Args) < 2 {
+				return nil
+			}
+			f := c.Call.StaticCallee()
+			if f == nil || !strings.HasPrefix(f.Name(), name) {
+				return nil
+			}
+			return c
+		}
+		for _, fn := range h.P.Funcs {
+			if fn.Parent() != nil || fn.Signature.Recv() == nil || !ir.TypeIs(fn.Signature.Recv().Type(), "server/wal", tn) {
+				continue
+			}
+			fn := fn
+			ir.Instrs(fn, func(in ssa.Instruction) {
+				rm := callNamed(in, "Remove")
+				if rm == nil || !on(rm.Call.Args[0], index) {
+					return
+				}
+				n++
+				h.Fn(ir.FuncName(fn))
+				key := rm.Call.Args[1]
+				blocked := map[ir.Edge]bool{}
+				ir.Instrs(fn, func(x ssa.Instruction) {
+					get := callNamed(x, "Get")
+					if get == nil || !on(get.Call.Args[0], cache) || !ir.SameExpr(get.Call.Args[1], key) || get.Referrers() == nil {
+						return
+					}
+					for _, r := range *get.Referrers() {
+						ex, isEx := r.(*ssa.Extract)
+						if !isEx || ex.Index != 1 || ex.Referrers() == nil {
+							continue
+						}
+						for _, u := range *ex.Referrers() {
+							if iff, isIf := u.(*ssa.If); isIf && len(iff.Block().Succs) == 2 {
+								blocked[ir.Edge{From: iff.Block(), To: iff.Block().Succs[1]}] = true
+							}
+						}
+					}
+				})
+				isCacheRemove := func(x ssa.Instruction) bool {
+					c := callNamed(x, "Remove")
+					return c != nil && on(c.Call.Args[0], cache) && ir.SameExpr(c.Call.Args[1], key)
+				}
+				bad := ""
+				var w []int
+				ir.Instrs(fn, func(x ssa.Instruction) {
+					_, isRet := x.(*ssa.Return)
+					if bad != "" || (!isRet && x != in) {
+						return
+					}
+					if r, path := ir.Reach(ir.Search{From: in, Barrier: isCacheRemove, Blocked: blocked}, ir.Is(x)); r {
+						bad = "a segment is removed from the index of segments and can stay in the cache of open segments " + witness(path) + ": reads look in the cache first, so a closed or deleted segment is served for offsets that are later written into another segment"
+						w = path
+					}
+				})
+				h.Verdict(bad == "", rule, fmt.Sprintf("segment leaving the index #%d in %s", n, ir.FuncName(fn)), h.pos(in), "it leaves the cache on the same path", bad, witness(w))
+			})
+		}
+	}
+	if n == 0 {
+		h.Anchor(rule, "removals from the index of segments in the ReadOnlySegmentsGroup implementation")
 	}
 }
